@@ -99,6 +99,12 @@ def noncanonical(rng, n):
         if rng.random() < 0.3:
             b += rbytes(rng, rng.randrange(1, 9))
         out.append(('noncanon_c', b))
+        if rng.random() < 0.1:
+            # a control message with the O bit set whose body begins the way a data message's would: Offset Size, that much
+            # padding, and only then the AVPs (the offset bit means nothing in a control message, whatever follows the header)
+            n = rng.choice([0, 1, 2, 3, 6, 8, rng.randrange(0, 20)])
+            out.append(('ctrl_offset_like', ctrl_bytes(be(n, 2) + rbytes(rng, n) + body, 0x1320 | 1 << 14 | rng.choice([0, 0, 1 << 15]), None,
+                                                       extreme(rng, 16), extreme(rng, 16), 1, 2)))
         L, S, O, P = (rng.random() < 0.5 for _ in range(4))
         osz = rng.choice([0, 1, 3]) if O else 0
         rsv = rng.choice([0, 0, rng.choice([1, 2, 4, 8, 1 << 10, 1 << 11, 1 << 13])])
